@@ -62,7 +62,7 @@ const urlAlphabet = "ABCDEFGHIJKLMNOPQRSTUVWXYZabcdefghijklmnopqrstuvwxyz0123456
 // the first yieldBudget bursts of a process.
 var (
 	burstCount  atomic.Int64
-	yieldBudget = int64(envInt("PROOFGATE_YIELD_BURSTS", map[string]int{"thorough": 4000}[os.Getenv("VERIF_TIER")]+300))
+	yieldBudget = int64(envInt("PROOFGATE_YIELD_BURSTS", map[string]int{"thorough": 1000}[os.Getenv("VERIF_TIER")]+300))
 )
 
 func envInt(k string, def int) int {
